@@ -50,6 +50,8 @@ def run(run):
     n_exec = common.check_discarded_futures(run, "C18.R3", pipe_funcs, "a failed transfer looks like success, index.wtml is sent and the image is moved to published/")
     if not common.discarded_futures_selfcheck():
         run.undecided("C18.R3", None, None, "discarded-futures rule self-check failed", kind="selfcheck", construct="<futures selfcheck>")
+    if _swallowing_helpers(run, f):
+        return
     # procedure-like helpers of the manager (e.g. "upload one approved image") are spliced into publish
     f = inline_helpers(project, f, lambda owner, call: common.resolve_callee(project, owner, call))
     ev = sym.make_evaluator(project, PIPE, [])
@@ -145,6 +147,49 @@ def run(run):
     # ---- R5 constants
     _r5(run)
     _r6(run)
+
+
+def _swallowing_helpers(run, publish):
+    """A helper between publish and put_item that catches the transfer's error and returns normally turns the failure into a
+    value.  That is a definite violation where the caller cannot stop on that value: the call sits in a comprehension / map
+    (every element is evaluated, index.wtml included) or its value is thrown away.  Other uses are left to the structural rules."""
+    project = run.project
+    found = False
+    seen = {publish.qual}
+    todo = [publish]
+    while todo:
+        caller = todo.pop()
+        for c in own_calls(caller.node):
+            h = common.resolve_callee(project, caller, c)
+            if h is None or h.qual in seen or not h.module.name.startswith(PIPE):
+                continue
+            seen.add(h.qual)
+            todo.append(h)
+            swallow = None
+            for p_ in own_calls(h.node):
+                if callee_attr(p_) != "put_item":
+                    continue
+                for s_ in [n for n in own_nodes(h.node) if isinstance(n, ast.Try)]:
+                    if any(x is p_ for b in s_.body for x in ast.walk(b)):
+                        for hd in s_.handlers:
+                            if (common.handler_catches_class(hd, "OSError") or common.handler_catches_class(hd, "Exception")) \
+                                    and not any(isinstance(y, ast.Raise) for x in hd.body for y in ast.walk(x)):
+                                swallow = hd
+            if swallow is None:
+                continue
+            run.note_func(h)
+            # how is the helper's call used in the caller?
+            in_comp = [n for n in own_nodes(caller.node) if isinstance(n, (ast.ListComp, ast.GeneratorExp, ast.SetComp, ast.DictComp)) and any(x is c for x in ast.walk(n))]
+            in_map = [n for n in own_calls(caller.node) if isinstance(n.func, ast.Name) and n.func.id == "map" and n.args and isinstance(n.args[0], (ast.Name, ast.Attribute))
+                      and (dotted(n.args[0]) or "").split(".")[-1] == h.name]
+            discarded = [n for n in own_nodes(caller.node) if isinstance(n, ast.Expr) and n.value is c]
+            if in_comp or in_map or discarded:
+                how = "inside a comprehension (every element is evaluated)" if in_comp else ("through map()" if in_map else "and its result is discarded")
+                run.violated("C18.R3", h, swallow, "%s catches the transfer's error at line %d and returns normally; %s calls it %s, so after a failed transfer the remaining "
+                             "files of the image -- finally index.wtml -- are still sent: the store gets an index.wtml next to a missing or incomplete file" % (
+                                 h.short, swallow.lineno, caller.short, how), kind="upload-error-swallowed")
+                found = True
+    return found
 
 
 def _innermost_loop(fnode, target):
